@@ -314,6 +314,24 @@ theorem genesis_unit_prices_are_min (a b c d e : Nat) (ha : a ≤ maxU64) (hb : 
   rw [hraw]
   rfl
 
+/-- **C27 (which rules)** — the genesis unit prices are the minimum prices of the rules in
+force at the genesis *state* timestamp 0 (`ruleFactory.GetRules(0)`), whatever the rule
+factory answers for any other time — in particular for the genesis header's timestamp: two
+rule factories that agree at time 0 give the same genesis (state, root, header), and the fee
+entry is `feeBytes (rf 0)`. -/
+theorem genesis_prices_are_rules_at_zero (root : (Bytes → Option Bytes) → Nat)
+    (bp hp tp fp : Bytes) (rf rf' : PriceRules) (allocs : List Alloc) (h0 : rf 0 = rf' 0) :
+    genesisCommitRF root bp hp tp fp rf allocs = genesisCommitRF root bp hp tp fp rf' allocs ∧
+    (∀ m hdr, (∀ al ∈ allocs, al.bal ≤ maxU64) → (rf 0).length = feeDimensions →
+      genesisCommitRF root bp hp tp fp rf allocs = .ok (m, hdr) →
+      content m (encodeChunks fp feeKeyChunks) = some (feeBytes (rf 0))) := by
+  constructor
+  · simp only [genesisCommitRF, h0]
+  · intro m hdr hb hl hok
+    have hex := genesis_state_exact root _ allocs ⟨hb, hl⟩ m hdr hok (encodeChunks fp feeKeyChunks)
+    rw [hex]
+    simp [spec, feeKey]
+
 /-- **C27 (reusable genesis)** — in the model `InitializeState` / `NewGenesisCommit` are pure
 functions of the genesis value `(c, allocs)`: the value is an input only (it cannot be
 altered), so initialising twice — on two fresh databases, or after any encoding round trip
